@@ -62,6 +62,39 @@ OmegaNumIO(E, Vx, Vy, inn) ==
    SumR(1, Len(E), LAMBDA n : IF n \notin inn THEN 0 ELSE
         SumR(1, Len(E), LAMBDA l : IF l \in inn THEN 0 ELSE
              -2 * CMul(Vx[n][l], Vy[l][n])[2] * (dd \div Sq(E[l] - E[n]))))
+(* Fermi-sea bookkeeping of a SCAN of Fermi levels that starts inside the bands (StaticCalculator without tetrahedra:
+   Data_K.get_bands_in_range_groups_ik + grid/tetrahedron.get_borders).  Energies are integers, levels are given times 4
+   (lo4 = 4 * lowest level, never a multiple of 4, so no level sits on a band or on the mean energy of a group).
+   Bands are collected into groups: "none" every band alone; "chain" neighbouring bands at most 1 apart belong together
+   (degen_thresh between 1 and 2); "kramers" pairs (1,2), (3,4), ... and, with an odd number of bands, the last band alone.
+   The groups that reach up to the lowest level or above are "in range" and enter with their whole trace when the level
+   passes their mean energy; all bands strictly below the lowest level form the sea block - CLAMPED to the bands before the
+   first in-range group, because a group that straddles the lowest level already contains its lower bands.
+   ScanTotal = the value at a level above all bands = sea block + every in-range group; it must be sum_n Omega_n = 0.
+   Two wrong book-keepings (sensitivity, must violate): "noclamp" counts the lower bands of a straddling group twice,
+   "kramers_drop_last" leaves the last band of an odd set out of every group. *)
+BordersOf(E, grouping) ==
+   LET nb == Len(E) IN
+   CASE grouping = "kramers" -> {i \in 0..nb : i % 2 = 0 \/ i = nb}
+     [] grouping = "kramers_drop_last" -> {i \in 0..nb : i % 2 = 0}
+     [] grouping = "chain" -> {0, nb} \cup {i \in 1..(nb - 1) : E[i + 1] - E[i] > 1}
+     [] OTHER -> 0..nb
+IsGroup(B, a, b) == a \in B /\ b \in B /\ a < b /\ \A c \in B : ~(a < c /\ c < b)     \* the bands a+1..b
+ScanTotal(E, om, lo4, grouping, clamp) ==
+   LET nb == Len(E)
+       B == BordersOf(E, grouping)
+       InRange(a, b) == IsGroup(B, a, b) /\ 4 * E[b] >= lo4
+       below == Cardinality({n \in 1..nb : 4 * E[n] < lo4})
+       firsts == {a \in 0..nb : \E b \in 1..nb : InRange(a, b)}
+       first == IF firsts = {} THEN below ELSE CHOOSE a \in firsts : \A c \in firsts : a <= c
+       bandmax == IF clamp /\ first < below THEN first ELSE below
+   IN SumR(1, bandmax, LAMBDA n : om[n])
+      + SumR(0, nb - 1, LAMBDA a : SumR(a + 1, nb, LAMBDA b : IF InRange(a, b) THEN SumR(a + 1, b, LAMBDA n : om[n]) ELSE 0))
+(* the level lo4/4 lies inside a group: strictly between two neighbouring bands of one group *)
+LevelInsideGroup(E, l4, grouping) ==
+   \E n \in 1..(Len(E) - 1) : /\ 4 * E[n] < l4 /\ l4 < 4 * E[n + 1]
+                              /\ \E a, b \in BordersOf(E, grouping) : IsGroup(BordersOf(E, grouping), a, b) /\ a < n /\ n + 1 <= b
+
 (* the spectrum with the levels j and j + 1 made degenerate *)
 Collapse(E, j) == [k \in 1..Len(E) |-> IF k = j + 1 THEN E[j] ELSE E[k]]
 =============================================================================
